@@ -596,6 +596,12 @@ def call_builtin(self, name, pos, kw, node, fr):
             if s is not None:
                 return s[2]
         return self.numpy_call(name, pos, kw)
+    if name == 'iter' and len(pos) == 2 and not kw:
+        # iter(callable, sentinel): the callable is called once per element -- analyse one call (its events count)
+        fa = pos[0].single_atom()
+        if fa is not None and fa.kind in ('closure', 'func', 'boundmethod'):
+            v = self._call_value(pos[0], [], [], node, fr)
+            return T.mk_call('iter_until', [v, pos[1]])
     if name in ('filter', 'map') and len(pos) == 2 and not kw:
         # filter(f, xs) == [x for x in xs if f(x)] ;  map(f, xs) == [f(x) for x in xs]   (as iterated values)
         fa = pos[0].single_atom()
